@@ -86,6 +86,7 @@ def check_property_file(pid: str, timeout=900):
     text = strip_comments(src.read_text())
     theorems = re.findall(r'^\s*Theorem\s+(\w+)', text, re.M)
     printed = re.findall(r'Print Assumptions\s+(\w+)\s*\.', text)
+    examples = re.findall(r'^\s*Example\s+(\w+)', text, re.M)
     scratch = tempfile.mkdtemp(prefix='tcverif-prop-')
     try:
         tmp = Path(scratch) / f'{pid}.v'
@@ -110,7 +111,7 @@ def check_property_file(pid: str, timeout=900):
                 if n not in ALLOWED_AXIOMS:
                     bad.append(f'{thm}: {n}')
     ok = p.returncode == 0 and len(blocks) == len(printed) and set(theorems) <= set(printed) and not bad
-    return dict(ok=ok, theorems=theorems, printed=printed, closed=closed, axioms=axioms, bad_axioms=bad,
+    return dict(ok=ok, theorems=theorems, printed=printed, closed=closed, axioms=axioms, bad_axioms=bad, examples=examples,
                 output=out[-4000:], rc=p.returncode)
 
 
